@@ -56,8 +56,8 @@ def noalloc(progs, rr=None, what='FixedCapacityVector'):
                 if is_alloc_request(f):
                     path = prog.path(e['id'], lambda x: x['id'] == fid)
                     first_amc = next((p for p in path if p.get('amc')), e)
-                    rr.add(Finding('NOALLOC', '%s|%s' % (first_amc['name'], f['name']), first_amc['loc'],
-                                   'allocation request %s is reachable from a %s operation: %s' % (f['name'], what, fmt_path(path)),
+                    rr.add(Finding('NOALLOC', '%s|%s' % (first_amc['key'], f['name']), first_amc['loc'],
+                                   'allocation request %s is reachable from a %s operation: %s' % (f['key'], what, fmt_path(path)),
                                    where=first_amc['pname'], unit=prog.uname))
             # one instance per amc function that was proven allocation-free in this instantiation
             for fid in reach:
@@ -96,7 +96,7 @@ def memop(progs_nonreloc, progs_reloc):
         rr.instance('nonreloc|%s' % prog.uname, {'unit': prog.uname, 'element': E, 'functions_scanned': nf,
                                                   'byte_copies_on_E*': len(found)})
         for f, name, loc in found:
-            rr.add(Finding('MEMOP', '%s|%s|%s' % (f['name'], name, E), loc,
+            rr.add(Finding('MEMOP', '%s|%s|%s' % (f['key'], name, E), loc,
                            '%s is applied to %s*, but %s is neither trivially copyable nor declared relocatable' % (name, E, E),
                            where=f['pname'], unit=prog.uname))
     npos = 0
@@ -104,7 +104,7 @@ def memop(progs_nonreloc, progs_reloc):
         found = sites(prog, E)
         npos += len({(f['name'], loc) for f, name, loc in found})
         for f, name, loc in found:
-            rr.instance('reloc|%s|%s' % (f['name'], rel(loc)), {'unit': prog.uname, 'element': E, 'byte_copy': name,
+            rr.instance('reloc|%s|%s' % (f['key'], rel(loc)), {'unit': prog.uname, 'element': E, 'byte_copy': name,
                                                                'in': f['pname'][:140], 'site': rel(loc)})
     rr.notes.append('positive sites (byte copies on relocatable E*): %d' % npos)
     return rr, npos
@@ -131,8 +131,8 @@ def realloc_tr(points):
             e, f = reached[0]
             path = prog.path(e['id'], lambda x: x['id'] == f['id'])
             first_amc = next((p for p in reversed(path) if p.get('amc')), e)
-            rr.add(Finding('REALLOC-TR', '%s|%s' % (first_amc['name'], f['name']), first_amc['loc'],
-                           '%s is reachable for the non-relocatable element type %s: %s' % (f['name'], E, fmt_path(path)),
+            rr.add(Finding('REALLOC-TR', '%s|%s' % (first_amc['key'], f['name']), first_amc['loc'],
+                           '%s is reachable for the non-relocatable element type %s: %s' % (f['key'], E, fmt_path(path)),
                            where=first_amc['pname'], unit=prog.uname))
         if reloc and has_re and not reached:
             rr.notes.append('%s: reallocate not used although possible (performance only)' % prog.uname)
@@ -192,7 +192,7 @@ def throw_reach(progs, discharge=None):
         for fid, f in prog.fns.items():
             if not (f.get('amc') and f.get('hasbody') and f.get('nothrow')):
                 continue
-            rr.instance('%s|%s' % (f['name'], rel(f['loc'])),
+            rr.instance('%s|%s' % (f['key'], rel(f['loc'])),
                         {'function': f['pname'][:160], 'unit': prog.uname, 'noexcept': True,
                          'reaches_throw_source': fid in may})
             if fid in may:
@@ -202,7 +202,7 @@ def throw_reach(progs, discharge=None):
                     x = may[x][0]
                     chain.append(prog.fns[x])
                 reason = src.get(x, '')
-                fin = Finding('THROW-REACH', '%s|%s' % (f['name'], chain[-1]['name']), f['loc'],
+                fin = Finding('THROW-REACH', '%s|%s' % (f['key'], chain[-1]['name']), f['loc'],
                               'declared noexcept (evaluates to true here) but can reach %s: %s  - an exception would call std::terminate'
                               % (reason, fmt_path(chain)), where=f['pname'], unit=prog.uname,
                               facts={'chain': [c['pname'][:120] for c in chain]})
@@ -291,7 +291,7 @@ def const_pure(progs):
                 continue
             body = f['body']
             linit = A.local_inits(body)
-            site_key = '%s|%s' % (f['name'], rel(f['loc']))
+            site_key = '%s|%s' % (f['key'], rel(f['loc']))
             rr.instance(site_key, {'function': f['pname'][:160], 'unit': prog.uname, 'this_is_shared': shared_this,
                                    'verdict': 'reads only'})
 
@@ -320,18 +320,18 @@ def const_pure(progs):
             for n in walk({'b': body, 'i': f.get('inits')}):
                 if n.get('k') == 'cast' and n.get('ck') in ('const', 'cstyle', 'reinterpret', 'functional'):
                     if _removes_const(n.get('from', ''), n.get('t', '')) and const_shared_root(n.get('sub')):
-                        rr.add(Finding('CONST-PURE', '%s|cast' % f['name'], prog.site(f, n),
+                        rr.add(Finding('CONST-PURE', '%s|cast' % f['key'], prog.site(f, n),
                                        'const is cast away from the shared object inside a function reachable from the const API'
                                        ' (%s -> %s)' % (n.get('from'), n.get('t')), where=f['pname'], unit=prog.uname))
             # (2) stores: the type system protects fields of a const object, not what its pointer members point to
             for st, lhs in A.stores(body):
                 kind, r = A.root(lhs, linit)
                 if kind == 'global':
-                    rr.add(Finding('CONST-PURE', '%s|store-global|%s' % (f['name'], r.get('name')), prog.site(f, st),
+                    rr.add(Finding('CONST-PURE', '%s|store-global|%s' % (f['key'], r.get('name')), prog.site(f, st),
                                    'store to static-storage variable %s in a function reachable from the const API' % r.get('name'),
                                    where=f['pname'], unit=prog.uname))
                 elif kind == 'this' and shared_this:
-                    rr.add(Finding('CONST-PURE', '%s|store-this' % f['name'], prog.site(f, st),
+                    rr.add(Finding('CONST-PURE', '%s|store-this' % f['key'], prog.site(f, st),
                                    'store through the shared object (via a pointer member or a mutable field) in a function '
                                    'reachable from the const API', where=f['pname'], unit=prog.uname))
                 elif kind == 'param':
@@ -341,7 +341,7 @@ def const_pure(progs):
                         continue      # the callee's own copy (iterator, count)
                     if pointee_const(pt) and not direct:
                         continue      # pointer/reference to const: a store cannot compile without a cast (rule 1)
-                    rr.add(Finding('CONST-PURE', '%s|store-param|%s' % (f['name'], r.get('name')), prog.site(f, st),
+                    rr.add(Finding('CONST-PURE', '%s|store-param|%s' % (f['key'], r.get('name')), prog.site(f, st),
                                    'store through parameter %s (%s) in a function reachable from the const API' % (r.get('name'), pt),
                                    where=f['pname'], unit=prog.uname))
             # (2b) mutable access to the shared object handed to a callee: an argument whose type is pointer (or
@@ -370,7 +370,7 @@ def const_pure(progs):
                     else:
                         mutable_arg = apc is False
                     if mutable_arg:
-                        rr.add(Finding('CONST-PURE', '%s|escape|%s' % (f['name'], short(callee_rec['name'])), prog.site(f, c),
+                        rr.add(Finding('CONST-PURE', '%s|escape|%s' % (f['key'], short(callee_rec['name'])), prog.site(f, c),
                                        'mutable access to the shared object (argument %d, %s) is handed to %s, which takes it as %s'
                                        % (i, at, callee_rec['name'], pt), where=f['pname'], unit=prog.uname))
             # (3) calls: follow amc callees; a non-const member called on the shared object is a write
@@ -383,7 +383,7 @@ def const_pure(progs):
                     obj_shared = (kind == 'this' and shared_this) or kind in ('param', 'global', 'other')
                     if not c.get('constm'):
                         if kind == 'this' and shared_this:
-                            rr.add(Finding('CONST-PURE', '%s|nonconst-call|%s' % (f['name'], short(c.get('name', ''))), prog.site(f, c),
+                            rr.add(Finding('CONST-PURE', '%s|nonconst-call|%s' % (f['key'], short(c.get('name', ''))), prog.site(f, c),
                                            'non-const member %s is called on the shared object from the const API' % c.get('pname', '')[:120],
                                            where=f['pname'], unit=prog.uname))
                         work.append((cid, False))
